@@ -1065,3 +1065,10 @@ def shrink_candidates(case):
                 yield c
         except Exception:
             continue
+
+
+# ------------------------------------------------------------------ the translated validators (second tie)
+def obligations(ctx):
+    """detector.py's _validate_X / _validate_y (both base classes) re-translated to Gallina and re-proved equal to Validate.v."""
+    from .pytrans import obligations_validate
+    yield from obligations_validate(ctx)
